@@ -466,17 +466,6 @@ class C03(Check):
             return "depth-limit-200"
         variadic = [m for m in ms if m["params"] and m["params"][-1].endswith("...")]
         hashy = [m for m in ms if m["params"] is not None and "#" in (m["body"] or "")]
-        # (3) a token that comes out of # / ## processing (argument token, string) and is spelled like
-        #     a parameter of the macro is substituted a second time
-        for m in hashy:
-            for p in self._params(m):
-                others = [t for n in ms if n is not m for t in self._body_toks(n)]
-                try:
-                    others += [(type(t).__name__, t.token) for t in lex(case["input"])]
-                except Exception:
-                    pass
-                if any(tok == p for (_, tok) in others):
-                    return "operand-token-resubstituted"
         # (4) an argument that is not needed in expanded form (only an operand of # / ##, or a variable
         #     argument the replacement list never names) is macro-expanded all the same; visible when that
         #     needless expansion fails (a nested call with the wrong number of arguments)
